@@ -1,0 +1,103 @@
+//! Verification seams, only compiled with `--cfg a10_verif`.
+//!
+//! This module is **not** part of the public API of A10. It allows an
+//! in-process simulated io_uring kernel and a deterministic scheduler to be
+//! plugged in underneath the real A10 code. With no hooks installed every seam
+//! is a single relaxed load of a null pointer followed by the original code.
+
+#![allow(missing_docs, clippy::missing_safety_doc, clippy::type_complexity)]
+
+use std::ffi::{c_int, c_void};
+use std::sync::atomic::{AtomicPtr, Ordering};
+
+/// Function table consulted by the seams.
+pub struct Hooks {
+    // Kernel seam: return value and errno exactly as syscall(2) would.
+    pub io_uring_setup: unsafe fn(entries: u32, params: *mut c_void) -> c_int,
+    pub io_uring_enter2: unsafe fn(
+        fd: c_int,
+        to_submit: u32,
+        min_complete: u32,
+        flags: u32,
+        arg: *const c_void,
+        argsz: usize,
+    ) -> c_int,
+    pub io_uring_register:
+        unsafe fn(fd: c_int, opcode: u32, arg: *const c_void, nr_args: u32) -> c_int,
+    // Ring memory and the synchronous close(2) fallback: `None` means "not
+    // mine, do the real call".
+    pub mmap: unsafe fn(
+        len: usize,
+        prot: c_int,
+        flags: c_int,
+        fd: c_int,
+        offset: i64,
+    ) -> Option<*mut c_void>,
+    pub madvise: unsafe fn(addr: *mut c_void, len: usize, advice: c_int) -> Option<c_int>,
+    pub munmap: unsafe fn(addr: *mut c_void, len: usize) -> Option<c_int>,
+    pub close: unsafe fn(fd: c_int) -> Option<c_int>,
+    // Scheduling.
+    /// Called at every scheduling point. `addr` is the mutex or shared word
+    /// concerned, for bookkeeping only.
+    pub yield_point: fn(site: Site, addr: usize),
+    /// If true `lock` spins through `yield_point` instead of parking in the OS.
+    pub owns_scheduling: fn() -> bool,
+}
+
+/// Scheduling points.
+#[derive(Copy, Clone, Debug, Eq, PartialEq)]
+#[repr(u8)]
+pub enum Site {
+    Lock,
+    LockBlocked,
+    TryLock,
+    LoadKernelShared,
+    SqTailStore,
+    SqTailStored,
+    CqHeadStore,
+    CqHeadStored,
+    BufRingTailLoad,
+    BufRingTailStore,
+    BufRingTailStored,
+    PollingSet,
+    PollingWake,
+}
+
+static HOOKS: AtomicPtr<Hooks> = AtomicPtr::new(std::ptr::null_mut());
+
+/// Install `hooks`, replacing any previously installed hooks.
+pub fn install(hooks: &'static Hooks) {
+    HOOKS.store(std::ptr::from_ref(hooks).cast_mut(), Ordering::Release);
+}
+
+/// Remove any installed hooks.
+pub fn uninstall() {
+    HOOKS.store(std::ptr::null_mut(), Ordering::Release);
+}
+
+#[inline]
+pub(crate) fn hooks() -> Option<&'static Hooks> {
+    let ptr = HOOKS.load(Ordering::Acquire);
+    // SAFETY: `install` only accepts `&'static Hooks`.
+    if ptr.is_null() {
+        None
+    } else {
+        Some(unsafe { &*ptr })
+    }
+}
+
+#[inline]
+pub(crate) fn yield_point(site: Site, addr: usize) {
+    if let Some(hooks) = hooks() {
+        (hooks.yield_point)(site, addr);
+    }
+}
+
+/// Returns the installed hooks if they own the scheduling of threads.
+#[inline]
+pub(crate) fn scheduler() -> Option<&'static Hooks> {
+    match hooks() {
+        Some(hooks) if (hooks.owns_scheduling)() => Some(hooks),
+        _ => None,
+    }
+}
